@@ -48,7 +48,8 @@ def _selected_expr_source(node) -> bool:
 
 def delegation(repo) -> list[tuple]:
     """One obligation per method that MultipleExpression overrides: the body (docstring aside) only binds the
-    selected member (`_, e = self.selected()` or an equivalent form) and then calls the SAME method on it with the
+    selected member (`_, e = self.selected()` or an equivalent form), possibly records a parameter on the catalog
+    node itself (`self.attr = parameter`), and then calls the SAME method on the selected member with the
     method's own parameters, in order, returning the result (or as its last statement).  Sound for exactly this
     syntactic shape; any other shape is reported as failed (not as unknown)."""
     mi = repo.modules[ME]
@@ -82,6 +83,9 @@ def delegation(repo) -> list[tuple]:
                 elif isinstance(tgt, ast.Name) and _selected_expr_source(val):
                     sel_vars.add(tgt.id)
                     ok = True
+                elif isinstance(tgt, ast.Attribute) and isinstance(tgt.value, ast.Name) and tgt.value.id == 'self' \
+                        and isinstance(val, ast.Name) and val.id in params:
+                    ok = True       # the catalog node records a parameter on itself (as Expression.set_id_manager does)
             if not ok:
                 problem = f'statement at line {s.lineno} is not a binding of the selected member'
                 break
